@@ -20,7 +20,7 @@ RULE = ("all chains of nested interpretation contexts over 9 kinds {eager, lazy,
 ASSUMPTIONS = ["probe classes expected per interpretation are a fixed table derived from the documented meaning of each interpretation"]
 EXHAUSTIVE = {"quick": True, "thorough": True}
 MIN_NONTRIVIAL = {"quick": 10000, "thorough": 100000}
-REQUIRED_COUNTERS = ["steps-checked", "exceptional-exits", "probe-terms-built", "failing-substitutions"]
+REQUIRED_COUNTERS = ["steps-checked", "exceptional-exits", "probe-terms-built", "failing-substitutions", "shared-instance-cases"]
 
 KINDS = ["eager", "lazy", "reflect", "normalize", "sequential", "moment_matching", "memoize", "user", "user2", "tape"]
 
@@ -337,6 +337,35 @@ def run_shard(shard, res):
                     kind = "exception-exit" if raise_at else "normal-exit"
                     res.violation("stack:%s" % kind, "%s | chain=%s style=%s raise_at=%s catch_at=%s" % (m, list(chain), style, raise_at, catch_at),
                                   case={"chain": list(chain), "style": style, "raise_at": raise_at, "catch_at": catch_at, "sibling": sibling})
+    # one context-manager INSTANCE entered twice in sequence under different enclosing interpretations (a tape kept by the caller, a user
+    # interpretation object): the second entry must see the interpretation that encloses it now, not the one of the first entry
+    if shard["kind"] != "exhaustive" or shard.get("first") == KINDS[0]:
+        for k1, k2 in itertools.product(("eager", "lazy", "reflect", "normalize"), repeat=2):
+            for obj_kind in ("tape", "user"):
+                for first_exit in ("normal", "exception"):
+                    obj = h.AdjointTape() if obj_kind == "tape" else h.user
+                    msgs = []
+                    depth0 = len(h.interpreter._STACK)
+                    top0 = h.top()
+                    for k, how in ((k1, first_exit), (k2, "normal")):
+                        try:
+                            with h.total[k]:
+                                with obj:
+                                    m = h.probe([k, obj_kind], None)
+                                    if m:
+                                        msgs.append(m)
+                                    if how == "exception":
+                                        raise KeyError("injected")
+                        except KeyError:
+                            res.count("exceptional-exits")
+                        if h.top() is not top0 or len(h.interpreter._STACK) != depth0:
+                            msgs.append("after leaving %s/%s the stack is not restored" % (k, obj_kind))
+                    res.case(key=str(("shared-instance", k1, k2, obj_kind, first_exit)), nontrivial=True,
+                             sample={"shared_instance": obj_kind, "first_under": k1, "second_under": k2, "first_exit": first_exit})
+                    res.count("shared-instance-cases")
+                    for m in msgs:
+                        res.violation("stack:shared-instance", "%s | the same %s instance entered under %s (left by %s exit) and then under %s" % (m, obj_kind, k1, first_exit, k2),
+                                      case={"chain": [k1, obj_kind], "style": "with", "raise_at": 0, "catch_at": 0, "sibling": None})
     res.count("stack-pushes-logged", h.stack.pushes)
     res.count("stack-pops-logged", h.stack.pops)
     if h.stack.pushes != h.stack.pops:
